@@ -2,12 +2,47 @@
 total and report only well-formed ranges.  `run_html(ctx)` / `replay_html(ctx, obj)`
 are called from harness/props/c16.py."""
 import glob
+import hashlib
 import json
 import os
+import sys
 
+import c16_gen
 import html_gen
 import html_util as hu
 from common import VERIF
+
+# The statement says "return without raising" for the library as a user gets it: the implementation runs under
+# CPython's default recursion limit (the ./check driver raises its own limit to 10000 for the harness).
+USER_RECURSION_LIMIT = 1000
+# scale documents whose attribute part is the large thing: attributes() is run on these too (on the other scale
+# documents it is quadratic in the number of unclosed `<`, which is a matter of speed, not of C16)
+# scale families on which the extracted model is too slow for match() (its attribute list handling is quadratic in the
+# length of the tag); there match() goes through the oracle only.  attributes() with a tag name likewise (all scale).
+MODEL_SLOW_MATCH = ('scale:many-attributes', 'scale:long-values-and-text', 'scale:deep-brackets')
+ATTR_SCALE = ('scale:many-attributes', 'scale:long-values-and-text', 'scale:deep-brackets', 'scale:nested-chain',
+              'scale:wrapped-document')
+
+
+class user_limit:
+    """run the implementation under the interpreter's default recursion limit"""
+
+    def __enter__(self):
+        self.old = sys.getrecursionlimit()
+        sys.setrecursionlimit(USER_RECURSION_LIMIT)
+
+    def __exit__(self, *a):
+        sys.setrecursionlimit(self.old)
+        return False
+
+
+def run_impl(jobs):
+    with user_limit():          # worker processes are forked inside and inherit the limit
+        return hu.run_impl(jobs)
+
+
+def short_key(s):
+    return s if len(s) <= 400 else '%s...[%d chars, sha1 %s]' % (s[:60], len(s), hashlib.sha1(s.encode('utf-8', 'replace')).hexdigest()[:12])
 
 FUNCS = ('match', 'outward', 'inward')
 SEEDS = ['', '<', '<a', '<a>', '</a>', '<a/>', '<a b="\\', '<a b=\'', '<a {', '<?', '<? "\\', '<!--', '<![CDATA[', '<a b="c">',
@@ -18,8 +53,9 @@ SEEDS = ['', '<', '<a', '<a>', '</a>', '<a/>', '<a b="\\', '<a b=\'', '<a {', '<
          '<é>', '<a:b.c-d_e>', '<a *b #c [d] (e) {f}>', '<a "', "<a '", '<a "b">', '<a b= "c">', '<a b="c"d="e">']
 
 
-def string_jobs(s, oname):
-    ps = list(range(-1, len(s) + 2))
+def string_jobs(s, oname, ps=None):
+    """scan + match / outward / inward at the given positions (default: every position -1..len+1)"""
+    ps = list(range(-1, len(s) + 2)) if ps is None else list(ps)
     return [('scan', s, oname, None)] + [(k, s, oname, ps) for k in FUNCS], ps
 
 
@@ -41,7 +77,12 @@ def check_attrs(s, name, res):
 
 
 def inputs(ctx):
-    """(string, option-set name, source label) in the order: corpus, seeds, exhaustive, random, mutated."""
+    """(string, option-set name, source label, positions or None = all) in the order: corpus, seeds, exhaustive,
+    letter-case seeds / token sequences, random, mutated, scale."""
+    return [t if len(t) == 4 else t + (None,) for t in _inputs(ctx)]
+
+
+def _inputs(ctx):
     quick = ctx.tier == 'quick'
     rng = ctx.rng
     out = []
@@ -61,15 +102,35 @@ def inputs(ctx):
     if not quick:
         for s in html_gen.short_strings(3):
             out.append((s, 'ab-xml', 'exhaustive'))
+    # letters and case: hand-written strings, then ALL sequences of up to 3 (thorough: 4) tokens over small alphabets of
+    # lower / upper / mixed case open and close tags of special, void and ordinary names
+    for s in c16_gen.CASE_SEEDS:
+        for on in ('html', 'xml', 'ab'):
+            out.append((s, on, 'case-seed'))
+    for on, toks in c16_gen.CASE_TOKENS:
+        for s in c16_gen.case_token_strings(toks, 3 if quick else 4):
+            out.append((s, on, 'case-token-sequences'))
     n_rand = 2500 if quick else 60000
     for i in range(n_rand):
         on = ('html', 'ab', 'ab-xml', 'xml', 'nospecial')[i % 5]
-        out.append((html_gen.gen_malformed(rng, 12 if i % 2 else 60), on, 'random'))
+        gen = c16_gen.gen_malformed if i % 4 < 2 else html_gen.gen_malformed      # half over the alphabets with upper case
+        out.append((gen(rng, 12 if i % 2 else 60), on, 'random'))
     n_mut = 250 if quick else 4000
     for i in range(n_mut):
         d = html_gen.gen_document(rng, xml=(i % 4 == 3), max_nodes=12)
-        out.append((html_gen.mutate(rng, d.text), 'xml' if d.xml else 'html', 'mutated'))
+        on = 'xml' if d.xml else 'html'
+        if i % 5 == 0:
+            out.append((c16_gen.case_mutate(rng, d.text[:400]), on, 'case-mutated'))      # valid but for letter case
+        elif i % 5 == 1:
+            out.append((html_gen.mutate(rng, c16_gen.case_mutate(rng, d.text)), on, 'mutated'))
+        else:
+            out.append((html_gen.mutate(rng, d.text), on, 'mutated'))
+    if SCALE:
+        out.extend(c16_gen.scale_documents(rng, quick))
     return out
+
+
+SCALE = True      # documents with depth / counts / token lengths in the thousands (sampled positions)
 
 
 def run_html(ctx):
@@ -83,18 +144,34 @@ def run_html(ctx):
         'default, and a set whose special/void names are `a`,`b`,`ab` so that short strings reach those paths) + random '
         'strings / fragment mixes + mutations (delete, insert, replace, truncate, duplicate) of generated valid '
         'documents up to 400 characters; every position -1..len+1; attributes() on every string with and without a tag '
-        'name. A case = one (string, options, position); non-trivial when the scanner reports at least one tag; distinct by '
-        '(string, options).') % (3 if quick else 4, len(html_gen.ALPHABET), ''.join(html_gen.ALPHABET))
+        'name. LETTERS AND CASE: %d hand-written strings with upper / mixed case and letters with unusual case mappings '
+        '(U+0130, U+00DF, U+017F, U+01C5) in open tags, close tags, special (script/style) and void names, the `type` '
+        'attribute and its value, CDATA / doctype keywords, open and close tag in DIFFERENT case; ALL sequences of up to %d '
+        'tokens over %s; half of the random strings over the alphabet / fragment list extended with upper case; two fifths '
+        'of the generated documents get the case of 1..4 tag names or letter runs changed (one fifth otherwise left '
+        'valid). SCALE (%s): %d document families (nested chain of first children, the same with siblings, unclosed / '
+        'partly closed / misnested chain, stray close tags, many siblings, many void siblings, many attributes, long values '
+        'and text, brackets nested in an attribute, long comment/CDATA/PI sections, unclosed comment, long special-element '
+        'body closed and unclosed, a generated document wrapped in a deep stack and the same cut off) with depth / count '
+        '/ length drawn from %s (+0..49), positions sampled (-1..2, the middle, len-2..len+1, end of the first and start '
+        'of the last tag, 3 random); they go through the extracted model as well, except match() on the three attribute families and attributes() with a tag name (model too slow there: oracle only). The implementation runs under CPython\'s '
+        'default recursion limit %d, not the 10000 of the check driver. A case = one (string, options, position); '
+        'non-trivial when the scanner reports at least one tag; distinct by (string, options).') % (
+            3 if quick else 4, len(html_gen.ALPHABET), ''.join(html_gen.ALPHABET), len(c16_gen.CASE_SEEDS), 3 if quick else 4,
+            ' and '.join('%s (options %s)' % (' '.join(t), on) for on, t in c16_gen.CASE_TOKENS),
+            'on' if SCALE else 'OFF', 17, '1100/1500/2100' if quick else '1100/1500/2100/5000', USER_RECURSION_LIMIT)
     ins = inputs(ctx)
     jobs = []
     meta = []
-    for s, on, label in ins:
-        js, ps = string_jobs(s, on)
+    for s, on, label, ps0 in ins:
+        js, ps = string_jobs(s, on, ps0)
         jobs += js
         meta.append(ps)
-    res = hu.run_impl(jobs)
+    n_small = 4 * sum(1 for t in ins if t[3] is None)
+    assert all(t[3] is None for t in ins[:n_small // 4]) and all(t[3] is not None for t in ins[n_small // 4:])
+    res = run_impl(jobs[:n_small]) + run_impl(jobs[n_small:])      # the few large documents spread over the workers
     n_fail = 0
-    for i, (s, on, label) in enumerate(ins):
+    for i, (s, on, label, ps0) in enumerate(ins):
         r = res[4 * i:4 * i + 4]
         ps = meta[i]
         ctx.count_eval(len(ps))
@@ -103,45 +180,90 @@ def run_html(ctx):
         if evs:
             ctx.nontrivial(('h', s, on))
             ctx.cover('html:strings-with-tags')
+            if any(n != n.lower() for n, _, _, _ in evs):
+                ctx.cover('html:tag-name-with-upper-case')
+            if len(evs) >= 1000:
+                ctx.cover('html:1000-or-more-tags')
         if isinstance(r[2], list) and any(isinstance(x, list) and len(x) >= 2 for x in r[2]):
             ctx.cover('html:nested-outward')
+        if isinstance(r[3], list) and any(isinstance(x, list) and len(x) >= 1000 for x in r[3]):
+            ctx.cover('html:inward-chain-1000-or-more')
+        if isinstance(r[2], list) and any(isinstance(x, list) and len(x) >= 1000 for x in r[2]):
+            ctx.cover('html:outward-chain-1000-or-more')
         fail = check_string(s, on, r, ps)
+        if fail:
+            # a failure is reported only when it shows again on a second evaluation of the same string (a stalled
+            # machine can make the per-call time limit of html_util fire once; a real failure repeats)
+            js, _ = string_jobs(s, on, ps)
+            fail = check_string(s, on, run_impl(js), ps)
+            if not fail:
+                ctx.cover('html:unrepeatable-failure-discarded')
         if fail:
             n_fail += 1
             p, what = fail
-            ctx.property_failure('c16-html:%s:%s@%s' % (on, s, p), 'html_matcher on %r (options %s) at %s: %s' % (s[:200], on, p, what),
-                                 {'component': 'c16-html', 'input': s, 'opts': on, 'pos': p, 'why': what})
+            rp = {'component': 'c16-html', 'input': s, 'opts': on, 'pos': p, 'why': what}
+            if ps0 is not None:
+                rp['positions'] = ps
+            ctx.property_failure('c16-html:%s:%s@%s' % (on, short_key(s), p),
+                                 'html_matcher on %r (options %s) at %s: %s' % (s[:200], on, p, what), rp)
     # attribute parser on the same strings (fragment form, and tag form with a name)
     seen = set()
     ajobs = []
-    for s, on, label in ins:
-        if s in seen:
+    for s, on, label, ps0 in ins:
+        if s in seen or (ps0 is not None and label not in ATTR_SCALE):
             continue
         seen.add(s)
         ajobs.append(('attrs', s, None, None))
         ajobs.append(('attrs', s, 'a', None))
         if len(s) % 3 == 0:
             ajobs.append(('attrs', s, 'ab', None))
-    ares = hu.run_impl(ajobs)
+    ares = run_impl(ajobs)
     for job, r in zip(ajobs, ares):
         ctx.count_eval()
         if isinstance(r, list) and r:
             ctx.cover('html:attributes-nonempty')
             if any(a[3] is not None for a in r):
                 ctx.cover('html:attributes-with-value')
+            if len(r) >= 1000:
+                ctx.cover('html:1000-or-more-attributes')
         bad = check_attrs(job[1], job[2], r)
         if bad:
+            bad = check_attrs(job[1], job[2], run_impl([job])[0])
+        if bad:
             n_fail += 1
-            ctx.property_failure('c16-html-attrs:%s:%s' % (job[2], job[1]), 'attributes(%r, %r): %s' % (job[1][:200], job[2], bad),
+            ctx.property_failure('c16-html-attrs:%s:%s' % (job[2], short_key(job[1])), 'attributes(%r, %r): %s' % (job[1][:200], job[2], bad),
                                  {'component': 'c16-html-attrs', 'input': job[1], 'name': job[2], 'why': bad})
-    for s, on, label in ins[len(SEEDS) * 4 + 2000:len(SEEDS) * 4 + 2003]:
+    k = len(SEEDS) * 4 + 2000
+    for s, on, label, ps0 in ins[k:k + 3]:
         ctx.sample({'input': s, 'opts': on, 'source': label})
-    dis = hu.correspond(ctx, model, jobs, res, 'html_matcher_any_string')
-    dis += hu.correspond(ctx, model, ajobs, ares, 'html_attributes_any_string')
+    for wanted in ('case-token-sequences', 'case-mutated', 'scale:nested-chain'):
+        for s, on, label, ps0 in ins:
+            if label == wanted and len(s) > 12:
+                ctx.sample({'input': s if len(s) <= 300 else s[:120] + '...(%d characters)' % len(s), 'opts': on, 'source': label})
+                break
+    big = set(s for s, on, label, ps0 in ins if ps0 is not None)
+    slow = set(s for s, on, label, ps0 in ins if label in MODEL_SLOW_MATCH)
+    keep = [k for k, j in enumerate(jobs) if not (j[0] == 'match' and j[1] in slow)]
+    dis = hu.correspond(ctx, model, [jobs[k] for k in keep], [res[k] for k in keep], 'html_matcher_any_string')
+    keep = [k for k, j in enumerate(ajobs) if not (j[2] is not None and j[1] in big)]
+    dis += hu.correspond(ctx, model, [ajobs[k] for k in keep], [ares[k] for k in keep], 'html_attributes_any_string')
     if dis and not n_fail:
         job, i, a, b = dis[0]
         ctx.broken.append({'kind': 'correspondence', 'file': 'html-matcher:' + job[0], 'input': job[1][:400],
                            'opts': job[2], 'pos': None if i is None else job[3][i], 'impl': repr(a)[:300], 'model': repr(b)[:300]})
+
+
+def exception_name(s, pos, on):
+    """for the replay report only: which exception the three functions raise at this position"""
+    from emmet.html_matcher import match, balanced_outward, balanced_inward
+    out = []
+    with user_limit():
+        for f in (match, balanced_outward, balanced_inward):
+            try:
+                f(s, pos, hu.OPT_SETS[on])
+            except Exception as e:  # noqa: BLE001
+                out.append('%s: %s' % (f.__name__, type(e).__name__))
+    return ', '.join(out) or 'none this time'
 
 
 def replay_html(ctx, obj):
@@ -149,13 +271,17 @@ def replay_html(ctx, obj):
     comp = rp.get('component')
     if comp == 'c16-html':
         s, on = rp['input'], rp['opts']
-        js, ps = string_jobs(s, on)
-        fail = check_string(s, on, hu.run_impl(js), ps)
-        print('input %r options %s -> %s' % (s, on, 'position %s: %s' % fail if fail else 'property holds'))
+        js, ps = string_jobs(s, on, rp.get('positions'))
+        fail = check_string(s, on, run_impl(js), ps)
+        shown = repr(s) if len(s) <= 400 else repr(s[:120]) + '...(%d characters)' % len(s)
+        print('input %s options %s -> %s' % (shown, on, 'position %s: %s' % fail if fail else 'property holds'))
+        if fail and fail[0] is not None and 'raised' in fail[1]:
+            print('  the exception: %s' % exception_name(s, fail[0], on))
         return 1 if fail else 0
     if comp == 'c16-html-attrs':
         s, name = rp['input'], rp.get('name')
-        bad = check_attrs(s, name, hu.impl_attributes(s, name))
-        print('attributes(%r, %r) -> %s' % (s, name, bad or 'property holds'))
+        bad = check_attrs(s, name, run_impl([('attrs', s, name, None)])[0])
+        shown = repr(s) if len(s) <= 400 else repr(s[:120]) + '...(%d characters)' % len(s)
+        print('attributes(%s, %r) -> %s' % (shown, name, bad or 'property holds'))
         return 1 if bad else 0
     return None
